@@ -335,3 +335,345 @@ def coq_enum_prog(name, xj):
     return '(mkEnumProg %s %s [%s] %s %s %d %s %s %s %s %s [%s] %s)' % (
         cstr(name), b(derive), '; '.join(vs), b(raw_ok), ctor, cast, raw_ret, b(new_ok), new_param, ret_result, b(reader),
         '; '.join(arms), default)
+
+
+# ---- everything around the accessor bodies: struct item, constants, trait impls, builder ------------
+
+def _is_path(e, segs):
+    return isinstance(e, dict) and e.get('e') == 'path' and e.get('segs') == segs and not e.get('leading_colon')
+
+
+def _lit_int(e, suffix=None):
+    """value of an integer literal expression (any suffix unless one is required), else None"""
+    if isinstance(e, dict) and e.get('e') == 'lit' and e.get('kind') == 'int':
+        if suffix is None or e.get('suffix') == suffix:
+            return int(e['value'])
+    return None
+
+
+def _single_expr(block):
+    st = block['stmts']
+    if len(st) == 1 and st[0]['s'] == 'expr' and not st[0]['semi']:
+        return st[0]['e']
+    return None
+
+
+def _call(e, segs, nargs):
+    if isinstance(e, dict) and e.get('e') == 'call' and _is_path(e['f'], segs) and len(e['args']) == nargs:
+        return e['args']
+    return None
+
+
+def _arb(seg):
+    m = re.fullmatch(r'u(\d+)', seg or '')
+    return int(m.group(1)) if m else None
+
+
+def coq_optN(x):
+    return 'None' if x is None else '(Some %d)' % x
+
+
+def cinit_of(c, name):
+    e = c['expr']
+    a = _call(e, ['Self', 'new_with_raw_value'], 1)
+    if a is not None:
+        if _lit_int(a[0], '') == 0:
+            return '(CIZero None)'
+        if _is_path(a[0], ['Self', 'DEFAULT_RAW_VALUE']):
+            return 'CIDefault'
+        if a[0].get('e') == 'call' and a[0]['f'].get('e') == 'path' and len(a[0]['f']['segs']) == 2 \
+                and a[0]['f']['segs'][1] == 'new' and not a[0]['f'].get('leading_colon') and len(a[0]['args']) == 1 \
+                and _arb(a[0]['f']['segs'][0]) is not None and _lit_int(a[0]['args'][0], '') == 0:
+            return '(CIZero (Some %d))' % _arb(a[0]['f']['segs'][0])
+        return 'CIOther'
+
+    def dv(x):
+        v = _lit_int(x, '')
+        if v is not None:
+            return '(DVLit %d)' % v
+        if x.get('e') == 'path' and len(x['segs']) == 1 and not x.get('leading_colon'):
+            return '(DVIdent %s)' % cstr(x['segs'][0])
+        return None
+    if dv(e) is not None:
+        return '(CIDefRaw None %s)' % dv(e)
+    if e.get('e') == 'call' and e['f'].get('e') == 'path' and len(e['f']['segs']) == 2 and e['f']['segs'][1] == 'new' \
+            and not e['f'].get('leading_colon') and len(e['args']) == 1 and _arb(e['f']['segs'][0]) is not None \
+            and dv(e['args'][0]) is not None:
+        return '(CIDefRaw (Some %d) %s)' % (_arb(e['f']['segs'][0]), dv(e['args'][0]))
+    return 'CIOther'
+
+
+def shape_new(fn):
+    e = _single_expr(fn['body'])
+    return 'ShSelfDefault' if e is not None and _is_path(e, ['Self', 'DEFAULT']) else 'ShOther'
+
+
+def shape_builder(fn, name):
+    partial = 'Partial' + name
+    st = fn['body']['stmts']
+    if len(st) == 1:
+        e = _single_expr(fn['body'])
+        a = _call(e, [partial], 1)
+        if a is not None:
+            if _is_path(a[0], [name, 'DEFAULT']):
+                return 'ShBuilderDefault'
+            b = _call(a[0], [name, 'new_with_raw_value'], 1)
+            if b is not None and _lit_int(b[0], '') == 0:
+                return '(ShBuilderZero None)'
+    if len(st) == 2 and st[0]['s'] == 'const' and st[0]['name'] == 'ZERO' and st[1]['s'] == 'expr' and not st[1]['semi']:
+        w = _arb(st[0]['ty'])
+        init = st[0]['init']
+        if w is not None and init.get('e') == 'call' and _is_path(init['f'], [st[0]['ty'], 'new']) and len(init['args']) == 1 \
+                and _lit_int(init['args'][0], '') == 0:
+            a = _call(st[1]['e'], [partial], 1)
+            if a is not None:
+                b = _call(a[0], [name, 'new_with_raw_value'], 1)
+                if b is not None and _is_path(b[0], ['ZERO']):
+                    return '(ShBuilderZero (Some %d))' % w
+    return 'ShOther'
+
+
+def shape_step(fn, name):
+    partial = 'Partial' + name
+    e = _single_expr(fn['body'])
+    if e is None:
+        return 'ShOther'
+    if e.get('e') == 'field' and e.get('member') == '0' and _is_path(e['x'], ['self']):
+        return 'ShBuild'
+    a = _call(e, [partial], 1)
+    if a is None:
+        return 'ShOther'
+    calls = []
+    cur = a[0]
+    while isinstance(cur, dict) and cur.get('e') == 'mcall':
+        if cur['turbofish'] != '':
+            return 'ShOther'
+        args = cur['args']
+        if len(args) == 1 and _is_path(args[0], ['value']):
+            calls.append((cur['method'], None))
+        elif len(args) == 2 and _lit_int(args[0], 'usize') is not None and args[1].get('e') == 'index' \
+                and _is_path(args[1]['x'], ['value']) and _lit_int(args[1]['i'], 'usize') == _lit_int(args[0], 'usize'):
+            calls.append((cur['method'], _lit_int(args[0], 'usize')))
+        else:
+            return 'ShOther'
+        cur = cur['recv']
+    if not (isinstance(cur, dict) and cur.get('e') == 'field' and cur.get('member') == '0' and _is_path(cur['x'], ['self'])):
+        return 'ShOther'
+    calls.reverse()
+    return '(ShStep [%s])' % '; '.join('(%s, %s)' % (cstr(m), coq_optN(i)) for m, i in calls)
+
+
+def shape_debug(fn):
+    ok_sig = fn['params'] == [{'self': '&'}, {'name': 'f', 'ty': '&mut::core::fmt::Formatter<\'_>'}] and fn['ret'] == '::core::fmt::Result' \
+        and not fn['const'] and not fn['unsafe'] and fn['generics'] == ''
+    e = _single_expr(fn['body'])
+    if not ok_sig or e is None or e.get('e') != 'mcall' or e['method'] != 'finish' or e['args'] != [] or e['turbofish'] != '':
+        return 'ShOther'
+    fields = []
+    cur = e['recv']
+    while isinstance(cur, dict) and cur.get('e') == 'mcall' and cur['method'] == 'field':
+        a = cur['args']
+        if len(a) != 2 or a[0].get('e') != 'macro' or a[0]['path'] != ['stringify'] or cur['turbofish'] != '':
+            return 'ShOther'
+        r = a[1]
+        if not (r.get('e') == 'ref' and not r['mut'] and r['x'].get('e') == 'mcall' and r['x']['args'] == [] and
+                r['x']['turbofish'] == '' and _is_path(r['x']['recv'], ['self'])):
+            return 'ShOther'
+        fields.append((a[0]['tokens'].strip().replace(' ', ''), r['x']['method']))
+        cur = cur['recv']
+    if not (isinstance(cur, dict) and cur.get('e') == 'mcall' and cur['method'] == 'debug_struct' and _is_path(cur['recv'], ['f'])
+            and len(cur['args']) == 1 and cur['args'][0].get('e') == 'macro' and cur['args'][0]['path'] == ['stringify']):
+        return 'ShOther'
+    fields.reverse()
+    return '(ShDebug %s [%s])' % (cstr(cur['args'][0]['tokens'].strip()),
+                                  '; '.join('(%s, %s)' % (cstr(a), cstr(b)) for a, b in fields))
+
+
+_PATH_RE = re.compile(r"(?<![A-Za-z0-9_'])(::)?([A-Za-z_][A-Za-z0-9_#]*)((?:::[A-Za-z_][A-Za-z0-9_#]*)*)")
+_KEYWORDS = {'mut', 'const', 'dyn', 'as', 'fn', 'impl', 'for', 'let', 'if', 'else', 'match', 'pub', 'struct', 'enum', 'ref',
+             'return', 'true', 'false', 'unsafe', 'where', 'in', 'static', 'r'}
+
+
+def type_roots(t, out):
+    t = t.replace('&mut', '& ')
+    for m in _PATH_RE.finditer(t):
+        if m.group(2) in _KEYWORDS:
+            continue
+        out.add(('::' if m.group(1) else '') + m.group(2))
+
+
+def token_roots(tokens, out):
+    """roots of the path-like token runs in a spaced token string (used for `other` nodes)"""
+    t = re.sub(r'\s*::\s*', '::', tokens)
+    t = re.sub(r'"(?:[^"\\]|\\.)*"', '""', t)
+    for m in _PATH_RE.finditer(t):
+        if m.group(2) in _KEYWORDS:
+            continue
+        # a method or field name after `.` is not a path root
+        if m.start() > 0 and t[:m.start()].rstrip().endswith('.'):
+            continue
+        out.add(('::' if m.group(1) else '') + m.group(2))
+
+
+def collect_roots(node, out):
+    if isinstance(node, list):
+        for x in node:
+            collect_roots(x, out)
+        return
+    if not isinstance(node, dict):
+        return
+    k = node.get('e')
+    if k == 'path':
+        seg0 = re.sub(r'<.*', '', node['segs'][0])
+        out.add(('::' if node.get('leading_colon') else '') + seg0)
+        for s in node['segs']:
+            if '<' in s:
+                type_roots(s[s.index('<'):], out)
+    elif k == 'struct':
+        p = node['path']
+        out.add('::' + p[1] if p and p[0] == '' and len(p) > 1 else (p[0] if p else '?'))
+    elif k == 'macro':
+        p = node['path']
+        if len(p) == 1:
+            out.add(p[0] + '!')
+        else:
+            out.add('::' + p[1] if p[0] == '' else p[0])
+        if node['name'] == 'stringify' and len(p) == 1:
+            return             # the argument is turned into a string literal, not evaluated
+        if node.get('args') is None:
+            token_roots(node.get('tokens', ''), out)
+    elif k == 'cast':
+        type_roots(node['ty'], out)
+    elif k == 'mcall' and node.get('turbofish'):
+        type_roots(node['turbofish'], out)
+    elif k == 'other' or node.get('s') == 'other' or node.get('kind') == 'other' or node.get('p') in ('other', 'range'):
+        token_roots(node.get('tokens', ''), out)
+    if 'p' in node and node.get('p') in ('path', 'tuple_struct'):
+        p = node.get('segs') or node.get('path') or ['?']
+        out.add(p[0])
+    for key in ('ty', 'ret', 'self_ty', 'trait'):
+        v = node.get(key)
+        if isinstance(v, str):
+            type_roots(v, out)
+    if 'other' in node and isinstance(node['other'], str):
+        token_roots(node['other'], out)
+    for key, v in node.items():
+        if key == 'attrs':
+            continue           # attributes are doc / inline / derive / cfg / repr / deprecated: checked separately
+        if isinstance(v, (dict, list)):
+            collect_roots(v, out)
+
+
+ALLOWED_ATTRS = {'doc', 'inline', 'derive', 'repr', 'deprecated', 'cfg'}
+
+
+def attr_problems(node, out):
+    """attribute paths outside the expected set anywhere in the expansion"""
+    if isinstance(node, list):
+        for x in node:
+            attr_problems(x, out)
+    elif isinstance(node, dict):
+        for a in node.get('attrs', []) or []:
+            if isinstance(a, dict) and a.get('path') not in ALLOWED_ATTRS:
+                out.append('attribute ' + a.get('path', '?'))
+        for v in node.values():
+            if isinstance(v, (dict, list)):
+                attr_problems(v, out)
+
+
+def has_doc_attr(attrs):
+    return any(a['path'] == 'doc' for a in attrs)
+
+
+def coq_sig(fi):
+    selfk = ''
+    params = []
+    for p in fi['params']:
+        if 'self' in p:
+            selfk = p['self']
+        elif 'name' in p:
+            params.append((p['name'], p['ty']))
+        else:
+            params.append(('?', p.get('other', '?')))
+    return '(mkSig %s %s %s %s %s [%s] %s)' % (
+        cstr(fi['name']), 'true' if fi['vis'] == 'pub' else 'false', 'true' if fi['const'] else 'false',
+        'true' if has_doc_attr(fi['attrs']) else 'false', cstr(selfk),
+        '; '.join('(%s, %s)' % (cstr(a), cstr(b)) for a, b in params), cstr(fi['ret'] or ''))
+
+
+def coq_extras(name, xj, user_attr_paths=()):
+    """xlate json of one bitfield expansion -> Coq `extras` term"""
+    empty = '(mkExtras false false false [] [] None None None [] ["untranslatable"%string] true [])'
+    if not xj.get('ok'):
+        return empty
+    partial = 'Partial' + name
+    derive = repr_c = sdoc = False
+    consts, shapes, steps, others = [], [], [], []
+    default_impl = debug_impl = partial_struct = 'None'
+    for it in xj['items']:
+        k = it['kind']
+        if k == 'struct' and it['name'] == name:
+            derive = any(a['path'] == 'derive' and re.sub(r'\s', '', a['tokens']) == 'derive(Copy,Clone)' for a in it['attrs'])
+            repr_c = any(a['path'] == 'repr' and re.sub(r'\s', '', a['tokens']) == 'repr(C)' for a in it['attrs'])
+            sdoc = has_doc_attr(it['attrs'])
+            if it['tuple'] or it['generics'] or len(it['fields']) != 1 or it['fields'][0]['name'] != 'raw_value' \
+                    or it['fields'][0]['vis'] != '':
+                others.append('struct shape')
+        elif k == 'struct' and it['name'] == partial:
+            g = it['generics']
+            m = re.fullmatch(r'u(\d+)', g[0].get('ty', '')) if len(g) == 1 and g[0].get('const') == 'MASK' else None
+            if m and it['tuple'] and len(it['fields']) == 1 and it['fields'][0]['ty'] == name and it['fields'][0]['vis'] == '' \
+                    and it['vis'] == 'pub':
+                partial_struct = '(Some (%s, %s))' % (m.group(1), 'true' if has_doc_attr(it['attrs']) else 'false')
+            else:
+                others.append('partial struct shape')
+        elif k == 'impl' and it['self_ty'] == name and it['trait'] is None and it['generics'] == '':
+            for fi in it['items']:
+                if fi['kind'] == 'const':
+                    consts.append('(mkCst %s %s %s %s %s)' % (cstr(fi['name']), 'true' if fi['vis'] == 'pub' else 'false',
+                                                            'true' if has_doc_attr(fi['attrs']) else 'false', cstr(fi['ty']),
+                                                            cinit_of(fi, name)))
+                elif fi['kind'] == 'fn':
+                    if fi['name'] == 'new':
+                        shapes.append('("new", %s)' % shape_new(fi))
+                    elif fi['name'] == 'builder':
+                        shapes.append('("builder", %s)' % shape_builder(fi, name))
+                else:
+                    others.append('impl item: ' + fi.get('tokens', '?')[:60])
+        elif k == 'impl' and it['self_ty'] == name and it['trait'] == 'Default' and it['generics'] == '':
+            fs = it['items']
+            ok = len(fs) == 1 and fs[0]['kind'] == 'fn' and fs[0]['name'] == 'default' and fs[0]['params'] == [] \
+                and fs[0]['ret'] == 'Self' and not fs[0]['unsafe'] and fs[0]['generics'] == ''
+            default_impl = '(Some %s)' % (shape_new(fs[0]) if ok else 'ShOther')
+        elif k == 'impl' and it['self_ty'] == name and it['trait'] == '::core::fmt::Debug' and it['generics'] == '':
+            fs = it['items']
+            ok = len(fs) == 1 and fs[0]['kind'] == 'fn' and fs[0]['name'] == 'fmt'
+            debug_impl = '(Some %s)' % (shape_debug(fs[0]) if ok else 'ShOther')
+        elif k == 'impl' and it['trait'] is None and it['generics'] == '' and \
+                re.fullmatch(re.escape(partial) + r'<(0x[0-9a-fA-F]+|\d+)>', it['self_ty']):
+            m_in = int(it['self_ty'][len(partial) + 1:-1], 0)
+            fs = it['items']
+            if len(fs) == 1 and fs[0]['kind'] == 'fn' and not fs[0]['unsafe'] and fs[0]['generics'] == '':
+                fi = dict(fs[0])
+                ret = fi['ret'] or ''
+                mo = re.fullmatch(re.escape(partial) + r'<(0x[0-9a-fA-F]+|\d+)>', ret)
+                out = None
+                if mo:
+                    out = int(mo.group(1), 0)
+                    fi['ret'] = ''
+                steps.append('(mkXStep %d %s %s %s)' % (m_in, coq_sig(fi), coq_optN(out), shape_step(fs[0], name)))
+            else:
+                others.append('builder impl shape')
+        else:
+            others.append('%s %s' % (k, (it.get('name') or it.get('self_ty') or it.get('tokens', ''))[:60]))
+    roots = set()
+    collect_roots(xj['items'], roots)
+    ap = []
+    attr_problems(xj['items'], ap)
+    ap = [a for a in ap if a.split(' ', 1)[1] not in user_attr_paths]
+    others += ap
+    return '(mkExtras %s %s %s [%s] [%s] %s %s %s [%s] [%s] %s [%s])' % (
+        'true' if derive else 'false', 'true' if repr_c else 'false', 'true' if sdoc else 'false',
+        '; '.join(consts), '; '.join(shapes), default_impl, debug_impl, partial_struct,
+        ';\n     '.join(steps), '; '.join(cstr(o) for o in others),
+        'true' if xj.get('has_unsafe') else 'false', '; '.join(cstr(r) for r in sorted(roots)))
